@@ -242,9 +242,9 @@ def _vasp_header(m, rng, variant):
                 groups[-1] = (z, groups[-1][1] + 1)
             else:
                 groups.append((z, 1))
-    scale = 1.0 if variant not in ("scaled", "volume") else 1.25
+    scale = 1.0 if variant not in ("scaled", "volume", "volume_cartesian") else 1.25
     lines = [m.title, f"   {scale:.14f}"]
-    if variant == "volume":
+    if variant in ("volume", "volume_cartesian"):
         # a negative scaling factor is the volume of the cell in cubic angstrom (the lattice vectors only give its shape)
         lines[1] = f"   {-abs(float(np.linalg.det(m.cell))):.10f}"
     for v in m.cell / scale:
@@ -252,8 +252,9 @@ def _vasp_header(m, rng, variant):
     lines.append(" ".join(f"{SYMBOLS[z - 1]:>4s}" for z, _n in groups))
     lines.append(" ".join(f"{n_:4d}" for _z, n_ in groups))
     xyz = m.xyz[order]
-    if variant in ("cartesian", "scaled"):
-        lines.append("Cartesian")
+    if variant in ("cartesian", "scaled", "volume_cartesian"):
+        # only the first letter counts, and VASP takes c, C, k and K for Cartesian
+        lines.append(rng.choice(["Cartesian", "cartesian", "Kartesian", "k", "C", "Cart"]))
         for r in xyz / scale:
             lines.append(f" {r[0]:19.12f} {r[1]:19.12f} {r[2]:19.12f}")
     else:
@@ -965,7 +966,7 @@ WRITERS = {"xyz": w_xyz, "extxyz": w_extxyz, "sdf": w_sdf, "pdb": w_pdb, "gromac
            "poscar": w_poscar, "chgcar": w_chgcar, "locpot": w_locpot, "cube": w_cube, "fcidump": w_fcidump,
            "gaussianinput": w_gaussianinput, "json_qcschema": w_json, "fchk": w_fchk, "gaussianlog": w_gaussianlog,
            "orcalog": w_orcalog, "gamess": w_gamess, "qchemlog": w_qchemlog, "wfx": w_wfx, "mwfn": w_mwfn, "cp2klog": w_cp2klog}
-VARIANTS = {"xyz": ["plain", "numbers"], "poscar": ["direct", "cartesian", "selective", "scaled", "repeated", "volume"], "cube": ["five", "ragged", "six", "one", "nval"],
+VARIANTS = {"xyz": ["plain", "numbers"], "poscar": ["direct", "cartesian", "selective", "scaled", "repeated", "volume", "volume_cartesian"], "cube": ["five", "ragged", "six", "one", "nval"],
             "gromacs": ["rect", "triclinic", "novel", "novel_triclinic"], "mol2": ["plain", "statusbits", "blanks"], "extxyz": ["plain", "noprops"], "json_qcschema": ["plain", "massnumbers"], "gaussianlog": ["plain", "twoel"], "orcalog": ["plain", "opt", "longscf"], "gamess": ["plain", "opt"],
             "qchemlog": ["plain", "unrestricted", "freq"], "wfx": ["plain", "gradient", "gradient_permuted"], "fchk": ["plain", "shuffled"],
             "gaussianinput": ["plain", "route_units", "route_long"], "fcidump": ["plain", "upper"], "mwfn": ["plain", "ecp"], "chgcar": ["plain", "lefthanded"], "locpot": ["plain", "lefthanded"],
